@@ -11,10 +11,11 @@ VERIF = Path(__file__).resolve().parent.parent
 props = [json.loads(l) for l in (VERIF / "properties.jsonl").read_text().splitlines() if l.strip()]
 checks, na = [], []
 pending = json.loads((VERIF / "harness" / "not_claimed.json").read_text())
+claimed = set(json.loads((VERIF / "harness" / "claimed.json").read_text()))
 for p in props:
     pid = p["id"]
     f = VERIF / "harness" / "props" / f"{pid}.py"
-    if not f.exists() or pid in pending:
+    if not f.exists() or pid in pending or pid not in claimed:
         na.append({"property_id": pid, "reason": pending.get(pid, "check not built yet (see DESIGN.md §10 build order)")})
         continue
     mod = importlib.import_module(f"props.{pid}")
